@@ -47,6 +47,13 @@ static void cmp(const S &op, const S &x, const S &c)
 #define SEQ(a, b) seq2((a), [&]() { return (b); })
 template <class F> static S seq2(const S &a, F f) { S b = f(); return a + b; }
 
+#if defined(__SANITIZE_ADDRESS__)
+#include <sanitizer/asan_interface.h>
+static int poisoned(const void *p) { return p && __asan_address_is_poisoned(p); }
+#else
+static int poisoned(const void *p) { (void)p; return 0; }
+#endif
+
 static S entry_c(const gd_entry_t &E)
 {
   std::ostringstream o;
@@ -367,26 +374,77 @@ int main(int argc, char **argv)
     BOTH("IncludeAffix", num(X->IncludeAffix("inc_new2", 0, "P_", "_S", GD_CREAT)), num(gd_include_affix(C, "inc_new2", 0, "P_", "_S", GD_CREAT)));
     BOTH("IncludeNS", num(X->IncludeNS("inc_new3", 0, "ns", GD_CREAT)), num(gd_include_ns(C, "inc_new3", 0, "ns", GD_CREAT)));
     int n = gd_nfragments(C);
-    Fragment *F = X->Fragment(n - 2);
-    if (F) {
-      { char *pc = NULL, *sc = NULL;
-#define CAFF() (gd_fragment_affixes(C, n - 2, &pc, &sc) < 0 ? S("(err)") : (str(pc) + str(sc)))
+    /* long-lived Fragment objects: after EVERY setter EVERY accessor of the object is compared with the C API on the
+     * other handle (the object caches encoding, byte sex, offset, protection, affixes and the namespace pointer) */
+    /* fragment 1 (included by the format file, usually with affixes), and the two just included with affixes / a
+     * namespace; the plain one (n - 3) is left alone: Entry::Move below moves a field into it */
+    int frs[3] = { 1, n - 2, n - 1 };
+    for (int fk = 0; fk < 3; fk++) {
+      int fi = frs[fk];
+      if (fi < 1 || fi >= n || (fk > 0 && fi == 1) || fi == n - 3) continue;
+      Fragment *F = X->Fragment(fi);
+      if (!F) { cmp("Fragment(existing)", "null", "fragment"); continue; }
 #define XE() (S(" e=") + num(X->Error()))
 #define CE() (S(" e=") + num(gd_error(C)))
-        S x1 = num(F->SetPrefix("Q_")); x1 += XE(); x1 += str(F->Prefix()) + str(F->Suffix());
-        S c1 = num(gd_alter_affixes(C, n - 2, "Q_", "_S")); c1 += CE(); c1 += CAFF(); free(pc); free(sc);
-        cmp("Fragment.SetPrefix", x1, c1);
-        S x2 = num(F->SetSuffix("_T")); x2 += XE(); x2 += str(F->Prefix()) + str(F->Suffix());
-        S c2 = num(gd_alter_affixes(C, n - 2, "Q_", "_T")); c2 += CE(); c2 += CAFF(); free(pc); free(sc);
-        cmp("Fragment.SetSuffix", x2, c2); }
-      { S x = num(F->SetFrameOffset(3, 0)); x += XE(); x += num(F->FrameOffset()); S c = num(gd_alter_frameoffset64(C, 3, n - 2, 0)); c += CE(); c += num(gd_frameoffset64(C, n - 2)); cmp("Fragment.SetFrameOffset", x, c); }
-      { S x = num(F->SetProtection(GD_PROTECT_DATA)); x += XE(); x += num(F->Protection()); S c = num(gd_alter_protection(C, GD_PROTECT_DATA, n - 2)); c += CE(); c += num(gd_protection(C, n - 2)); cmp("Fragment.SetProtection", x, c); }
-      { S x = num(F->SetEndianness(GD_BIG_ENDIAN, 0)); x += XE(); x += num(F->Endianness()); S c = num(gd_alter_endianness(C, GD_BIG_ENDIAN, n - 2, 0)); c += CE(); c += num(gd_endianness(C, n - 2)); cmp("Fragment.SetEndianness", x, c); }
-      { S x = num(F->SetEncoding(TextEncoding, 0)); x += XE(); x += num((unsigned long)F->Encoding()); S c = num(gd_alter_encoding(C, GD_TEXT_ENCODED, n - 2, 0)); c += CE(); c += num(gd_encoding(C, n - 2)); cmp("Fragment.SetEncoding", x, c); }
-      { S x = num(F->SetNamespace("nn")); x += str(F->Namespace());
-        gd_fragment_namespace(C, n - 2, "nn"); S c = num(gd_error(C)); c += str(gd_fragment_namespace(C, n - 2, NULL));
-        cmp("Fragment.SetNamespace", x, c); }
-      BOTH("Fragment.ReWrite", num(F->ReWrite()), num(gd_rewrite_fragment(C, n - 2)));
+#define FRAG_ALL(tag) do { char *_pc = NULL, *_sc = NULL; std::ostringstream _x, _c; \
+        const char *_xn = F->Name(), *_cn = gd_fragmentname(C, fi); \
+        _x << "enc=" << (unsigned long)F->Encoding() << " end=" << F->Endianness() << " off=" << (long long)F->FrameOffset() \
+           << " prot=" << F->Protection() << " idx=" << F->Index() << " parent=" << F->Parent() \
+           << " name=" << str(_xn ? strrchr(_xn, '/') : NULL) << " prefix=" << str(F->Prefix()) << " suffix=" << str(F->Suffix()) \
+           << " ns=" << str(F->Namespace()); \
+        if (gd_fragment_affixes(C, fi, &_pc, &_sc) < 0) _pc = _sc = NULL; \
+        _c << "enc=" << gd_encoding(C, fi) << " end=" << gd_endianness(C, fi) << " off=" << (long long)gd_frameoffset64(C, fi) \
+           << " prot=" << gd_protection(C, fi) << " idx=" << fi << " parent=" << gd_parent_fragment(C, fi) \
+           << " name=" << str(_cn ? strrchr(_cn, '/') : NULL) << " prefix=" << str(_pc) << " suffix=" << str(_sc) \
+           << " ns=" << str(gd_fragment_namespace(C, fi, NULL)); \
+        free(_pc); free(_sc); cmp(S("Fragment accessors after ") + tag + " [fragment " + num(fi) + "]", _x.str(), _c.str()); } while (0)
+#define CSUF() ({ char *_p = NULL, *_s = NULL; S _r; if (gd_fragment_affixes(C, fi, &_p, &_s) >= 0 && _s) _r = _s; free(_p); free(_s); _r; })
+#define CPRE() ({ char *_p = NULL, *_s = NULL; S _r; if (gd_fragment_affixes(C, fi, &_p, &_s) >= 0 && _p) _r = _p; free(_p); free(_s); _r; })
+/* a cached pointer of the object that points into freed memory (seen by AddressSanitizer without dereferencing it) */
+#define FRAG_PTRS(tag, failed) do { int _bad = poisoned(F->prefix) || poisoned(F->suffix) || poisoned(F->ns) || poisoned(F->name); \
+        if (_bad) { printf("DIFF Fragment cached pointer dangles after %s [fragment %d] | X=%s%s%s%s points into freed memory | C=(the C API returns live strings)\n", \
+            S(tag).c_str(), fi, poisoned(F->prefix) ? " prefix" : "", poisoned(F->suffix) ? " suffix" : "", poisoned(F->ns) ? " namespace" : "", poisoned(F->name) ? " name" : ""); ncmp++; } \
+        if (_bad || (failed)) { F = X->Fragment(fi); /* abandon the object (not deleted: it may free twice) */ \
+          if (!F) break; } } while (0)
+      FRAG_ALL("construction");
+      static const char *pres[] = { "Q_", "ns3.R_", "", "ns4.ns5.T_", "U_" };
+      static const char *sufs[] = { "_T", "", "_V" };
+      for (unsigned k = 0; k < sizeof pres / sizeof pres[0]; k++) {
+        /* the wrapper hands the library the new prefix together with the suffix the object holds */
+        S suf = CSUF();
+        int rxp = F->SetPrefix(pres[k]);
+        S x = num(rxp); x += XE();
+        S c = num(gd_alter_affixes(C, fi, pres[k], suf.empty() ? NULL : suf.c_str())); c += CE();
+        cmp(S("Fragment.SetPrefix(") + pres[k] + ")", x, c);
+        FRAG_PTRS(S("SetPrefix(") + pres[k] + ")" + (rxp ? " failed" : ""), rxp != 0);
+        FRAG_ALL(S("SetPrefix(") + pres[k] + ")");
+        if (k < sizeof sufs / sizeof sufs[0]) {
+          S pre = CPRE(); const char *cns = gd_fragment_namespace(C, fi, NULL);
+          S full = (cns && cns[0]) ? S(cns) + "." + pre : pre;
+          (void)full;
+          int rxs = F->SetSuffix(sufs[k]);
+          S x2 = num(rxs); x2 += XE();
+          S c2 = num(gd_alter_affixes(C, fi, pre.empty() ? NULL : pre.c_str(), sufs[k])); c2 += CE();
+          cmp(S("Fragment.SetSuffix(") + sufs[k] + ")", x2, c2);
+          FRAG_PTRS(S("SetSuffix(") + sufs[k] + ")" + (rxs ? " failed" : ""), rxs != 0);
+          FRAG_ALL(S("SetSuffix(") + sufs[k] + ")");
+        }
+        if (k == 1 || k == 3) {
+          const char *nn = k == 1 ? "nn" : "";
+          S x3 = num(F->SetNamespace(nn));
+          gd_fragment_namespace(C, fi, nn); S c3 = num(gd_error(C));
+          cmp(S("Fragment.SetNamespace(") + nn + ")", x3, c3);
+          FRAG_PTRS(S("SetNamespace(") + nn + ")", 0);
+          FRAG_ALL(S("SetNamespace(") + nn + ")");
+        }
+      }
+      { S x = num(F->SetFrameOffset(3, 0)); x += XE(); S c = num(gd_alter_frameoffset64(C, 3, fi, 0)); c += CE(); cmp("Fragment.SetFrameOffset", x, c); FRAG_ALL("SetFrameOffset"); }
+      { S x = num(F->SetProtection(GD_PROTECT_DATA)); x += XE(); S c = num(gd_alter_protection(C, GD_PROTECT_DATA, fi)); c += CE(); cmp("Fragment.SetProtection", x, c); FRAG_ALL("SetProtection"); }
+      { S x = num(F->SetProtection(GD_PROTECT_NONE)); x += XE(); S c = num(gd_alter_protection(C, GD_PROTECT_NONE, fi)); c += CE(); cmp("Fragment.SetProtection(none)", x, c); FRAG_ALL("SetProtection(none)"); }
+      { S x = num(F->SetEndianness(GD_BIG_ENDIAN, 0)); x += XE(); S c = num(gd_alter_endianness(C, GD_BIG_ENDIAN, fi, 0)); c += CE(); cmp("Fragment.SetEndianness", x, c); FRAG_ALL("SetEndianness"); }
+      { S x = num(F->SetEncoding(TextEncoding, 0)); x += XE(); S c = num(gd_alter_encoding(C, GD_TEXT_ENCODED, fi, 0)); c += CE(); cmp("Fragment.SetEncoding", x, c); FRAG_ALL("SetEncoding"); }
+      BOTH("Fragment.ReWrite", num(F->ReWrite()), num(gd_rewrite_fragment(C, fi)));
+      FRAG_ALL("ReWrite");
       delete F;
     }
     BOTH("UnInclude", num(X->UnInclude(n - 1, 1)), num(gd_uninclude(C, n - 1, 1)));
